@@ -11,6 +11,15 @@ down to 1, maximum packet size 0, and a raw hostile peer (`chan.send_packet(MSG_
 sender-side accounting): DATA of any size / datatype, WINDOW_ADJUST of any value, EOF, CLOSE in any order while the
 victim's application pauses and resumes; compared: DATA sizes and WINDOW_ADJUST values on the wire, callbacks,
 ProtocolError or not.  Also the window / packet size advertised in CHANNEL_OPEN / OPEN_CONFIRMATION.
+Also (audit findings D2, D3, D4; repairs b98700f, 9fcdbb2, 6aa4f78): pause_honoured_prop (while the application has
+reading paused nothing but its own resume makes the endpoint call data_received — a second `shell` request did before
+the repair: witness second_session_request_ended_pause_preFix, tie second_session_request_refused),
+no_protocol_error_after_local_close (text layer, Model/ChannelDecode.lean; witness
+honest_eof_after_close_midchar_fatal_preFix), tun_receiver_accounting (layer-3 tunnel channel, Model/ChannelVariants.lean:
+the stripped address family is accounted; witnesses tun_window_leak_preFix, tun_stalls_after_one_packet_preFix, tie
+tun_header_counted_in_code).  The scripted cases include a second `shell` request (op `req`) in the honest profiles, a
+text receiver closing in the middle of a character, and layer-3 tunnel streams of several windows against small
+windows (props/_channel_audit.py).
 Oracle (independent accounting over the wire trace): no DATA packet beyond the window granted so far or the peer's
 maximum packet size; a receiver accepts no more than it advertised (also while paused); everything written reaches
 a reader that reads; no operation emits an unbounded number of packets.
@@ -23,6 +32,7 @@ from typing import Any, Dict, List
 from vlib import Ctx, CorrResult, OracleResult, Failure, Disagreement, Hist
 
 import translate as T
+from props import _channel_audit as A
 from props import _channel_gen as G
 from props import _channel_lib as L
 from props import _channel_oracle as O
@@ -38,7 +48,11 @@ MANIFEST = {
             'Two honest endpoints, every event sequence: no ProtocolError and no spinning loop (honest_no_protocol_error), '
             'a delivery is enabled whenever data is undelivered and the reader reads (no_deadlock_prop), every delivery '
             'decreases a potential (delivery_decreases_measure), hence every written byte is delivered '
-            '(every_byte_eventually_delivered, for a non-zero maximum packet size). The behaviour before the fixes '
+            '(every_byte_eventually_delivered, for a non-zero maximum packet size). The reader\'s pause is honoured '
+            'by every event but its own resume (pause_honoured_prop; a second shell request is refused: repair b98700f); '
+            'after the application\'s close() the text layer never raises (no_protocol_error_after_local_close: repair '
+            '9fcdbb2); a layer-3 tunnel endpoint accounts the stripped address family (tun_receiver_accounting: repair '
+            '6aa4f78) — each with a witness theorem for the code before the repair. The behaviour before the fixes '
             'de5c08f / 53cd2ff (spinning send loop, window not enforced while paused) is kept as witness theorems about '
             'the old functions, and the scenarios stay in the oracle corpus.',
     'note': 'fairness of delivery is the assumption of the liveness corollary; stream.py pausing at one window of '
@@ -77,8 +91,8 @@ def correspondence(ctx: Ctx) -> CorrResult:
     res = CorrResult()
     hist = Hist()
     plan = [('hostile', ctx.n(380, 4000)), ('tiny', ctx.n(140, 1800)), ('stream', ctx.n(120, 1500)),
-            ('zero', ctx.n(6, 40))]
-    cases: List[Dict[str, Any]] = []
+            ('zero', ctx.n(6, 40)), ('textclose-dec', ctx.n(40, 600))]
+    cases: List[Dict[str, Any]] = [c for c in audit_cases() if not c['chans'][0].get('enc')]
     for prof, n in plan:
         rng = ctx.subrng('corr:' + prof)
         cases += [L.gen_case(rng, prof) for _ in range(n)]
@@ -147,6 +161,30 @@ def directed_cases() -> List[Dict[str, Any]]:
     return [f2, f2b, f3, f3b, ok]
 
 
+def audit_cases() -> List[Dict[str, Any]]:
+    """directed cases for the audit findings D2 (a second shell request resumes a paused reader) and D3 (close() in
+    the middle of a character, then the honest peer's EOF / CLOSE: ProtocolError between honest peers)"""
+    big = dict(BASE, wa=1 << 21, pa=32768, wb=1 << 21, pb=32768)
+    euro3 = 'e282ace282ace282ac'
+    out = []
+    for wb in (100, 16):
+        out.append({'profile': 'directed', 'chans': [dict(BASE, wb=wb)], 'ops': [
+            ['app', 'b', 0, 'pause'], ['app', 'a', 0, 'write', None, '30313233343536373839' * 3], ['deliver', 'b'],
+            ['req', 'a', 0], ['deliver', 'b'], ['deliver', 'a'], ['deliver', 'b'], ['deliver', 'b'],
+            ['app', 'a', 0, 'write', None, '6162636465'], ['deliver', 'b'], ['deliver', 'a'], ['deliver', 'b']]})
+    # the request arrives while the reader is NOT paused: refused as well, nothing else happens
+    out.append({'profile': 'directed', 'chans': [dict(BASE)], 'ops': [
+        ['app', 'a', 0, 'write', None, '303132'], ['req', 'a', 0], ['deliver', 'b'], ['deliver', 'b'], ['deliver', 'a'],
+        ['app', 'a', 0, 'close'], ['req', 'a', 0], ['deliver', 'b'], ['deliver', 'b']]})
+    for ending in (['eof'], ['close']):
+        for cfg in (dict(big, pa=4, enc='utf-8', errors='strict'), dict(big, pa=4, decA=True)):
+            out.append({'profile': 'directed', 'chans': [dict(cfg)], 'ops': [
+                ['app', 'b', 0, 'write', None, euro3], ['deliver', 'a'], ['app', 'a', 0, 'close'], ['deliver', 'a'],
+                ['deliver', 'a'], ['deliver', 'b']] + [['app', 'b', 0, e] for e in ending] +
+                [['deliver', 'a'], ['deliver', 'a'], ['deliver', 'a'], ['deliver', 'b']]})
+    return out
+
+
 def oracle(ctx: Ctx) -> OracleResult:
     res = OracleResult()
     hist = Hist()
@@ -155,11 +193,26 @@ def oracle(ctx: Ctx) -> OracleResult:
         if isinstance(s, dict) and 'case' in s and isinstance(s['case'], dict) and 'chans' in s['case']:
             todo.append(s['case'])
     todo += directed_cases()
+    todo += audit_cases()
     for prof, n in [('hostile', ctx.n(220, 3000)), ('tiny', ctx.n(120, 1800)), ('stream', ctx.n(110, 1600)),
-                    ('multi', ctx.n(40, 600)), ('zero', ctx.n(3, 20))]:
+                    ('multi', ctx.n(40, 600)), ('zero', ctx.n(3, 20)), ('textclose', ctx.n(50, 700))]:
         rng = ctx.subrng('oracle:' + prof)
         todo += [L.gen_case(rng, prof) for _ in range(n)]
+    # layer-3 tunnel channels: streams of several windows against small windows, the reader reads all along
+    arng = ctx.subrng('oracle:audit')
     seen = set()
+    for case in A.tun_cases() + [A.gen_tun(arng) for _ in range(ctx.n(30, 500))]:
+        out = A.run_scenario(case)
+        res.evaluations += 1
+        hist.hit('profile:' + case['kind'])
+        for f in A.check_scenario(PROPERTY, case, out):
+            hist.hit('failure:' + f.signature)
+            if f.signature not in seen:
+                seen.add(f.signature)
+                f.replay['case'] = A.shrink_tun(PROPERTY, f.replay['case'], f.signature)
+            res.failures.append(f)
+        if not out.get('error') and len(out.get('got', [])) * 100 > case['window']:
+            res.nontrivial += 1
     for case in todo:
         real = L.run_case(case, drain=case.get('profile') not in ('hostile',))
         res.evaluations += 1
@@ -178,8 +231,14 @@ def oracle(ctx: Ctx) -> OracleResult:
         if len(res.samples) < 3 and real.get('log'):
             res.samples.append({'chans': case['chans'], 'ops': case['ops'][:5],
                                 'results': [r for _op, r in real['log'][:5]]})
+    first, rest, sigs = [], [], set()
+    for f in res.failures:          # the first failure of every signature first (the runner prints the first few)
+        (rest if f.signature in sigs else first).append(f)
+        sigs.add(f.signature)
+    res.failures = first + rest
     res.histogram = dict(hist)
-    res.rule = 'non-trivial = at least one WINDOW_ADJUST was sent during the run'
+    res.rule = ('non-trivial = at least one WINDOW_ADJUST was sent during the run (tunnel scenario: more than one '
+                'window of packets reached the reader)')
     return res
 
 
@@ -205,4 +264,6 @@ def replay(ctx: Ctx, rep: Dict[str, Any]) -> List[Failure]:
                 break
     if not case:
         return []
+    if 'kind' in case:
+        return A.check_scenario(PROPERTY, case, A.run_scenario(case))
     return O.check_c08(case, L.run_case(case, drain=case.get('profile') not in ('hostile',)))
